@@ -11,7 +11,7 @@ EXTENDS VectorDefs
 \* value sets for the model configurations (a .cfg cannot spell a negative number)
 ValsA == {-1, 0, 2}
 ValsB == {-1, 0, 1, 2}
-ValsC == {-2, -1, 0, 1, 3}
+ValsC == {0, 1}
 
 \* ---- scans
 ScanMin(v) == LET F[i \in Idx(v)] == IF i = 1 THEN v[1] ELSE LET p == F[i-1] IN IF v[i] < p THEN v[i] ELSE p IN F[Len(v)]
@@ -175,6 +175,17 @@ A(t, op, x, y, z, k) ==
          LET w == IF op = "VarB" THEN x ELSE y IN
          IF Len(x) # Len(w) THEN Rs(DIM)
          ELSE Ok((4096 \div (n * n * n)) * Sum([i \in Idx(x) |-> (n * x[i] - Sum(x)) * (n * w[i] - Sum(w))]))
+    [] op = "MeanX"   -> Ok(<<IF n \in PowersOfTwo THEN (64 * Sum(x)) \div n ELSE -2000000000, 0>>)
+    [] op = "CenterX" -> Ok([i \in Idx(x) |-> IF n \in PowersOfTwo THEN (64 * (n * x[i] - Sum(x))) \div n ELSE -2000000000])
+    [] op \in {"CovX", "VarX", "SdX"} ->
+         LET yy == IF op = "CovX" THEN y ELSE x
+             v == IF n \in ExactN THEN CovKnown(x, yy, k[1] = 1) ELSE <<FALSE, 0>>
+             val == IF v[1] THEN v[2] ELSE -2000000000
+         IN IF Len(x) # Len(yy) THEN Rs(DIM)
+            ELSE IF op = "CovX" THEN Ok(<<val, 0>>)
+            ELSE IF op = "VarX" THEN Ok(<<val, 0, 0>>)
+            ELSE Ok(<<IF v[1] /\ ISqrt(v[2]) * ISqrt(v[2]) = v[2] THEN ISqrt(v[2]) ELSE -2000000000, 0>>)
+    [] op = "CorX"    -> IF mism THEN Rs(DIM) ELSE Ok(<<0, 1>>)
     [] op = "MeanW"   -> IF mism THEN Rs(DIM) ELSE Ok(<<(16 * Dot(x, y)) \div Sum(y), 0>>)
     [] op \in {"CovW", "VarW"} ->
          LET yy == IF op = "VarW" THEN x ELSE y
@@ -205,6 +216,10 @@ Pre(op, x, y, z, k) ==
     [] op = "VarB"               -> Len(x) \in {1, 2, 4, 8, 16}
     [] op = "CovB"               -> Len(x) # Len(y) \/ Len(x) \in {1, 2, 4, 8, 16}
     [] op = "Fdr"                -> Len(x) <= 10 /\ \A i \in Idx(x) : x[i] >= 0
+    [] op \in {"MeanX", "CenterX"} -> Len(x) >= 1 /\ k[1] \in {0} \cup 20..40
+    [] op \in {"CovX", "VarX", "SdX"} -> /\ k[2] \in {0} \cup 20..40 /\ Len(x) >= 1
+                                         /\ k[1] = 1 => Len(x) >= 2
+    [] op = "CorX"               -> k[1] \in {0} \cup 20..40 /\ Len(x) >= 2
     [] op \in {"MeanW", "VarW", "CovW"} ->
          LET a == IF op = "CovW" THEN z ELSE y
              u == IF op = "MeanW" THEN 0 ELSE k[1]
@@ -214,6 +229,7 @@ Pre(op, x, y, z, k) ==
          /\ Sum(a) \in {1, 2, 4, 8}
          /\ u = 1 => WQ(a) > 0
          /\ nz = 1 \/ pre = 1            \* weights not summing to one are only meaningful with normalisation
+         /\ k[Len(k)] \in {0} \cup 20..40  \* last entry: exponent of the power-of-two offset added to the data
     [] OTHER                     -> TRUE
 
 \* the transcription of op on these arguments is accepted by the judge
